@@ -3,9 +3,10 @@
 tier=$1; shift
 cd "$(dirname "$0")/.."
 (cd lean && lake build > /dev/null 2>&1) || { echo BUILD-FAILED; exit 2; }
-ids=$(python3 -c "import json;print(' '.join(c['property_id'] for c in json.load(open('MANIFEST.json'))['checks']))" 2>/dev/null)
+ids=${SWEEP_IDS:-}; [ -z "$ids" ] && ids=$(python3 -c "import json;print(' '.join(c['property_id'] for c in json.load(open('MANIFEST.json'))['checks']))" 2>/dev/null)
 for s in "$@"; do for p in $ids; do
   t0=$(date +%s); VERIF_SEED=$s ./check $p --tier $tier > /tmp/sweep_$p.log 2>&1; rc=$?; t1=$(date +%s)
   echo "$p seed=$s tier=$tier exit=$rc wall=$((t1-t0))s $(grep -c '^VIOLATION' /tmp/sweep_$p.log) violations"
-  [ $rc -ne 0 ] && grep -A1 "^VIOLATION\|MACHINERY" /tmp/sweep_$p.log | head -6
+  if [ $rc -ne 0 ]; then grep -A1 "^VIOLATION\|MACHINERY" /tmp/sweep_$p.log | head -6; fi
 done; done
+exit 0
